@@ -29,7 +29,7 @@ def _segments(r, depth: int) -> list:
         elif c < 0.5:
             segs.append(["q", r.choice(["k", "n", "list", "a", "size"])])
         elif c < 0.75:
-            segs.append(["i", r.choice([0, 1, -1, -2, 2, 5])])
+            segs.append(["i", r.choice([0, 1, -1, -2, 2, 5, -3, -4, -5, -7, 3])])
         elif depth > 0:
             segs.append(["v", [r.choice(NAMES + ["idx"]), *_segments(r, 0)[:1]]])
         else:
@@ -167,7 +167,7 @@ def finish_kwargs(ctx: core.Ctx, tier: str) -> dict:
             "keyword arguments, increment/decrement, output of paths) in which the same four names are bound by "
             "several constructs in arbitrary nesting, with render arguments, front matter, template globals and "
             "environment globals populated independently (and a user 'now' shadowing the built-in), and paths of "
-            "length 1-4 (dotted, quoted, index incl. negative, nested variable, size/first/last). The whole output "
+            "length 1-4 (dotted, quoted, index from -7 to 5 - beyond both ends of every array -, nested variable, size/first/last). The whole output "
             "is compared with a ~200-line reference interpreter. Non-trivial = some name is bound in >= 2 "
             "layers/constructs."
         ),
